@@ -78,6 +78,7 @@ package executor
 //@   ensures current-is-before-stop: called("IsRecordsEquals#3") && callres("IsRecordsEquals#3", 1) == nil && callres("IsRecordsEquals#3", 0) ==> !result0 && result1 == nil
 //@   ensures dirty-fails: called("IsRecordsEquals#3") && callres("IsRecordsEquals#3", 1) == nil && !callres("IsRecordsEquals#3", 0) ==> !result0 && result1 != nil
 //@   ensures errors-propagate: (called("IsRecordsEquals#1") && callres("IsRecordsEquals#1", 1) != nil) || (called("queryCurrentRecords#1") && callres("queryCurrentRecords#1", 1) != nil) || (called("IsRecordsEquals#2") && callres("IsRecordsEquals#2", 1) != nil) || (called("IsRecordsEquals#3") && callres("IsRecordsEquals#3", 1) != nil) ==> !result0 && result1 != nil
+//@   ensures stop-needs-evidence: on && !result0 && result1 == nil ==> (called("IsRecordsEquals#1") && callres("IsRecordsEquals#1", 0)) || (called("IsRecordsEquals#3") && callres("IsRecordsEquals#3", 0))
 //@   ensures go-on-only-if-current-is-after: on && result0 ==> called("IsRecordsEquals#2") && callres("IsRecordsEquals#2", 0) && callres("IsRecordsEquals#2", 1) == nil
 //@   at call IsRecordsEquals#1: assert compares-before-after: arg_beforeImage == b.sqlUndoLog.BeforeImage && arg_afterImage == b.sqlUndoLog.AfterImage
 //@   at call IsRecordsEquals#2: assert compares-after-current: arg_beforeImage == b.sqlUndoLog.AfterImage && arg_afterImage == callres("queryCurrentRecords#1", 0)
